@@ -21,6 +21,23 @@ invariants 1-4 as always, and invariant 5 looks at the simulated file system:
 the ethertype lock file of every running participant is still in the lock
 directory (a participant whose start failed removed nothing but what it created
 itself).
+
+The ``eth`` spaces explore the ethertype sub-protocol by itself (as the
+``fmmu`` spaces do for the address windows), completely: 2-3 joiners arrive at
+a lock directory that another, resident participant keeps alive and call the
+real ``get_ethertype(lockdir)`` / later ``os.remove(lockdir/lockfile)`` exactly
+as ``run()`` does, all trying the default ethertype first (its file free - the
+installer has left -, held by the live resident, or left behind by a process
+that died).  Collisions on one name at the same time need three preemptions in
+the full protocol; here they are the first thing that happens.
+
+The simulated OS gives every process its own pid (``os.getpid``) and answers
+``os.kill(pid, 0)``, ``os.stat``, ``os.path.exists``, reading files other
+processes wrote (a file made with ``open(..., 'x')`` exists, empty, from the
+open on; its content arrives with the close) - what a change of the protocol
+that looks at the lock files' owners would use.  A process that asks for
+something simos does not model is frozen at that point, the other executions
+go on, and the run ends INTERNAL unless a violation was found elsewhere.
 """
 import errno as _errno
 import os as _os
@@ -37,7 +54,12 @@ RULE = ("explicit-state search with replay over all interleavings of the "
         "fail (joiner gives up after its sleep, connect() raises) and a "
         "further participant starts afterwards; a state is non-trivial when "
         "a participant is inside its `async with` body (or holds an FMMU "
-        "window) while another process is still alive")
+        "window) while another process is still alive; plus the complete "
+        "ethertype sub-protocol (real get_ethertype / remove of 2-3 joiners "
+        "of a lock directory a resident keeps alive, the default ethertype's "
+        "file free, held by a live process or left by a dead one); every "
+        "process has its own pid, os.kill(pid, 0) / stat / reading other "
+        "processes' lock files are simulated")
 
 import ebpfcat.ebpfcat as ec_mod      # noqa: E402
 import ebpfcat.ethercat as eth_mod    # noqa: E402
@@ -176,7 +198,48 @@ def body_fmmu(rt):
     return [addr >> 22]
 
 
-BODIES = dict(full=body_full, fmmu=body_fmmu, restart=body_restart)
+RESIDENT_PID = 4242          # a live process that is not simulated
+RESIDENT_ETH = 0x5fff        # its ethertype (outside every randrange domain)
+DEAD_PID = 4343              # a process that died without cleaning up
+
+
+def body_eth(rt):
+    """a joiner of an installation that is up: the ethertype part of run()
+    - get_ethertype(lockdir), body, os.remove(lockdir/lockfile) - with the
+    library's own calls"""
+    ec = ec_mod.ParallelEtherCat(IF)
+    lockfile = ec.get_ethertype(LOCKDIR)
+    rt.flag("member", (ec.ethertype, lockfile))
+    try:
+        rt.syscall("work", (), lambda: None)
+    finally:
+        rt.flag("member", None)
+    ec_mod.os.remove(f"{LOCKDIR}/{lockfile}")
+    return [ec.ethertype, lockfile]
+
+
+def eth_world(default):
+    """the lock directory of a running installation: the resident's lock
+    file, and for the default ethertype 0x88A4 no file ('free': the installer
+    has left), the file of the live resident installer ('held') or the file
+    of a process that died ('stale')"""
+    w = simos.World(DIRS + [LOCKDIR])
+    w.residents.add(RESIDENT_PID)
+    files = {f"{RESIDENT_ETH}.lock": RESIDENT_PID}
+    if default == "held":
+        files = {"34980.lock": RESIDENT_PID}
+    elif default == "stale":
+        files["34980.lock"] = DEAD_PID
+    for name, pid in sorted(files.items()):
+        fd = w.open(0, f"{LOCKDIR}/{name}",
+                    _os.O_WRONLY | _os.O_CREAT | _os.O_EXCL)
+        w.write(0, fd, f"{pid:10}\n".encode())
+        w.close(0, fd)
+    return w
+
+
+BODIES = dict(full=body_full, fmmu=body_fmmu, restart=body_restart,
+              eth=body_eth)
 
 
 # ------------------------------------------------------------------- monitor
@@ -356,7 +419,8 @@ def _lockdir_before(log, j):
             break
         if not _ok(ev):
             continue
-        if name == "open" and isinstance(args[1], str) and args[1] != "r":
+        if name == "open" and isinstance(args[1], str) \
+                and not args[1].startswith("r"):
             d, _, f = args[0].rpartition("/")
             if d == LOCKDIR:
                 members.add(f)
@@ -477,6 +541,9 @@ def monitor(run):
                if "running" in p.flags]
     holding = [(p.pid, p.flags["holding"]) for p in run.procs
                if "holding" in p.flags]
+    # participants of the ethertype sub-protocol: (ethertype, lock file)
+    members = [(p.pid, p.flags["member"]) for p in run.procs
+               if "member" in p.flags]
     # (1) at most one installer at a time
     inst = [p.pid for p in run.procs
             if p.status in ("parked", "running") and _phase(p)]
@@ -516,8 +583,9 @@ def monitor(run):
                     "one", f"attached {att} uses "
                     f"{w.objs[att].get('table')}, pinned is {pin}")
     # (3) distinct ethertypes
-    for i, (p, fp) in enumerate(running):
-        for q, fq in running[i + 1:]:
+    eths = [(pid, (f[0],)) for pid, f in running] + members
+    for i, (p, fp) in enumerate(eths):
+        for q, fq in eths[i + 1:]:
             if fp[0] == fq[0]:
                 out.append(dict(
                     inv=3, kind="two running participants share an "
@@ -526,7 +594,8 @@ def monitor(run):
                              f"{fp[0]:#x}"))
     # (5) nobody - in particular no participant whose start failed - removed
     # what a running participant created: its ethertype lock file is there
-    for pid, (eth, tfd, slot) in running:
+    for pid, eth in [(pid, f[0]) for pid, f in running] + \
+            [(pid, f[0]) for pid, f in members]:
         path = f"{LOCKDIR}/{eth}.lock"
         if not w.exists(pid, path):
             by = _remover(run, path)
@@ -562,24 +631,32 @@ def describe(run):
 
 # -------------------------------------------------------------------- spaces
 def make_space(name, kind, n, preempt, crashes, seed, cap=None, neth=2,
-               nslot=3, faults=0):
+               nslot=3, faults=0, default=None):
     dom = domains(seed)
     dom = dict(eth=dom["eth"][:neth], slot=dom["slot"][:nslot])
     params = dict(kind=kind, n=n, preempt=preempt, crashes=crashes,
                   seed=seed, neth=neth, nslot=nslot, eth=dom["eth"],
                   slot=dom["slot"], faults=faults)
+    if default is not None:
+        params["default"] = default
 
     def factory():
         if kind == "restart":     # process 0 restarts once, the others not
             run = simos.Run(simos.World(DIRS),
                             [body_restart] + [body_full] * (n - 1),
                             params=dom)
+        elif kind == "eth":
+            run = simos.Run(eth_world(default), [body_eth] * n, params=dom,
+                            symmetric=True)
         else:
             run = simos.Run(simos.World(DIRS), [BODIES[kind]] * n,
                             params=dom, symmetric=True)
         # connect() faults this execution may still inject (see _connect);
         # a function of the processes' histories, so it is part of the key
         run.faults_left = faults
+        # a call simos has no model of freezes the caller, the other
+        # executions go on (run() decides what that means in the end)
+        run.tolerate_unmodelled = True
         return run
     return simos.Space(name, factory, monitor, preempt=preempt,
                        crashes=crashes, params=params, describe=describe,
@@ -589,7 +666,8 @@ def make_space(name, kind, n, preempt, crashes, seed, cap=None, neth=2,
 def space_from_params(name, p):
     return make_space(name, p["kind"], p["n"], p["preempt"], p["crashes"],
                       p["seed"], neth=p.get("neth", 2),
-                      nslot=p.get("nslot", 3), faults=p.get("faults", 0))
+                      nslot=p.get("nslot", 3), faults=p.get("faults", 0),
+                      default=p.get("default"))
 
 
 def spaces(ctx):
@@ -605,7 +683,13 @@ def spaces(ctx):
                          neth=1, nslot=2, faults=1),
               make_space("fmmu-2p-complete", "fmmu", 2, None, 0, s),
               make_space("fmmu-3p-complete-2slots", "fmmu", 3, None, 0, s,
-                         nslot=2)]
+                         nslot=2),
+              make_space("eth-3p-complete-free", "eth", 3, None, 0, s,
+                         default="free"),
+              make_space("eth-2p-complete-held-crash1", "eth", 2, None, 1,
+                         s, default="held"),
+              make_space("eth-2p-complete-stale", "eth", 2, None, 0, s,
+                         default="stale")]
     else:
         # (restart-2p-complete-small: 3.4 M executions, complete and clean
         # on the pinned tree, takes the run beyond half an hour on a busy
@@ -623,7 +707,13 @@ def spaces(ctx):
                          s, neth=1, nslot=2),
               make_space("full-3p-preempt2-fault1", "full", 3, 2, 0, s,
                          faults=1),
-              make_space("fmmu-3p-complete-crash1", "fmmu", 3, None, 1, s)]
+              make_space("fmmu-3p-complete-crash1", "fmmu", 3, None, 1, s),
+              make_space("eth-3p-complete-free-crash1", "eth", 3, None, 1,
+                         s, default="free"),
+              make_space("eth-3p-complete-held-crash1", "eth", 3, None, 1,
+                         s, default="held"),
+              make_space("eth-3p-complete-stale-crash1", "eth", 3, None, 1,
+                         s, default="stale")]
         extra = _os.environ.get("C23_SPACES", "").split(",")
         if "restart-2p-complete-small" in extra:
             sp.append(make_space("restart-2p-complete-small", "restart", 2,
@@ -651,21 +741,26 @@ def _failed_starts(sp, r):
             1 for o in r.outcomes if "injected fault" in o))
 
 
-def selftest():
+def selftest(ctx=None):
     diffs = simos.conformance()
     if diffs:
         raise core.Internal("simos does not conform to the real OS: "
                             + "; ".join(diffs[:5]))
+    bad = simos.selftest_pids(ctx or core.Ctx(PROP, "quick", 0))
+    if bad:
+        raise core.Internal("simos: pids / symmetry reduction / unmodelled "
+                            "calls: " + "; ".join(bad[:5]))
 
 
 def run(ctx):
-    selftest()
+    selftest(ctx)
     install()
     res = core.Result()
     try:
         res.cov.update(states=0, transitions=0, evaluations=0,
                        traces_validated_against_impl=0)
         per = {}
+        outside = {}
         for sp in spaces(ctx):
             # determinism: the same first schedule twice
             a = simos.execute(sp, [])
@@ -677,6 +772,17 @@ def run(ctx):
             st = simos.explore(ctx, sp, r)
             st["confirmed_replays"] = simos.confirm(sp, r)
             st.update(_failed_starts(sp, r))
+            if st.get("outside_model_states"):
+                # processes were frozen at calls simos has no model of:
+                # what lies behind those calls was not explored
+                outside[sp.name] = st["unmodelled_calls"]
+                r.count("outside_model_states", st["outside_model_states"])
+                r.caps_hit.append(
+                    f"{sp.name}: {st['outside_model_states']} states with a "
+                    "process standing at a call the simulated OS does not "
+                    f"model ({'; '.join(st['unmodelled_calls'])}); the "
+                    "executions were not followed beyond it")
+                r.exhaustive = False
             res.merge(r)
             per[sp.name] = st
             res.cov["states"] += st["states"]
@@ -696,10 +802,32 @@ def run(ctx):
                 completed=per[sp.name]["complete"])
             for sp in spaces(ctx)}
         res.cov["simos_conformance"] = "passed"
+        res.cov["simos_pid_symmetry_selftest"] = "passed"
         dom = domains(ctx.seed)
         res.cov["alphabet"] = dict(ethertypes=dom["eth"], slots=dom["slot"])
         res.sample(dict(space=spaces(ctx)[0].name,
                         schedule="all of them; see spaces"))
+        if outside:
+            # The model does not cover the code.  If the executions that
+            # could be followed show a new violation, that verdict stands
+            # (with the cap); otherwise nothing can be concluded: INTERNAL,
+            # never "held".
+            known = {k["id"] for k in core.load_known()
+                     if k.get("property") == PROP
+                     and k.get("status") == "known"}
+
+            def is_known(v):
+                kf = v.get("kf")
+                kfs = kf if isinstance(kf, list) else [kf]
+                return kf is not None and all(k in known for k in kfs)
+            if all(is_known(v) for v in res.violations):
+                calls = sorted({c for cs in outside.values() for c in cs})
+                raise core.Internal(
+                    "the code under test asks the operating system for "
+                    f"things the simulated OS does not model ({'; '.join(calls)}"
+                    f") in the spaces {sorted(outside)}; the executions that "
+                    "reach them could not be judged and the others show no "
+                    "new violation: extend mc/simos.py")
     finally:
         uninstall()
     res.assumptions += [
@@ -737,8 +865,38 @@ def run(ctx):
         "crash = process killed between two operations: descriptors closed, "
         "record locks released, files stay; a crashed process is not running",
         "identical processes: states that differ only by renaming the "
-        "processes are one state; os.getpid() (only written into the lock "
-        "files, never read) returns the same number for all of them",
+        "processes are one state.  Every process has its own pid "
+        "(os.getpid(): 70000 + process index, a restarted process gets a new "
+        "one; os.kill(pid, 0) tells whether that process still exists); the "
+        "pid is part of what is renamed: pid numbers inside files, in "
+        "arguments and results of operations are renamed together with the "
+        "processes.  Sound for code that stores, compares for equality and "
+        "probes pids; code that orders pids would break the symmetry",
+        "the simulated OS: a file made with builtin open(..., 'x'/'w'/'a') "
+        "exists (empty) from the open on, what was written arrives with "
+        "flush()/close(); other processes may read / stat / unlink it at any "
+        "point in between; os.kill only as existence probe (signal 0; pid of "
+        "a live process -> nothing, otherwise ProcessLookupError; the "
+        "resident participant of the eth spaces is alive, the owner of the "
+        "'stale' file is not); os.stat / os.path.exists / isfile / isdir / "
+        "getsize, os.link, os.access, fsync, lseek.  Checked against the "
+        "real OS by simos.conformance (script 'probe')",
+        "a call of the code under test that the simulated OS does not model "
+        "(another os / fcntl / shutil / tempfile function, pathlib, signal, "
+        "subprocess, an unknown open mode) freezes the calling process at "
+        "that point; the other executions are explored and judged, the "
+        "states are counted (outside_model_states, caps_hit).  A run in "
+        "which that happened and no new violation was found ends INTERNAL "
+        "(the model does not cover the code: no verdict), never 'held'",
+        "'eth' spaces: 2-3 joiners of a lock directory that a resident "
+        "participant (not simulated, alive, ethertype 0x5fff - or 0x88A4 in "
+        "the 'held' spaces) keeps in place call get_ethertype(lockdir), run "
+        "(flag 'member'), and remove their lock file, as run() does for a "
+        "joiner; rename / attach / pin / rmdir are not part of these spaces. "
+        "'free': nobody holds 0x88A4 (the installer left, the resident joined "
+        "before); 'stale': 34980.lock was left by a process that died. "
+        "Invariants 3 and 5 are judged over running participants and "
+        "members",
         "'restart' spaces: process 0 runs the program twice in a row (exit, "
         "then a new session, also when the start of the first one failed), "
         "which gives three sessions on two threads",
